@@ -123,7 +123,10 @@ HeaderOK(h, hi, r, t, g, boExp, dsPerFile, X) ==
   \* write_basic_interfile_image_header: matrix size, scaling factors (mm/pixel), first pixel offset, x,y,z order
   /\ h.labels = "xyz" /\ h.msize = Rev3(g.size)
   /\ \A a \in 1..3 : QNear(h.vox[a], h.voxR[a], vx[a], IF K_DEC6 \in X THEN Dec6Tol(vx[a]) ELSE 0)
-  /\ h.hasFpo /\ \A a \in 1..3 : QNear(h.fpo[a], h.fpoR[a], fpo[a], IF K_DEC6 \in X THEN Dec6Tol(fpo[a]) ELSE 0)
+  \* the first pixel offset is either written, or left to the reader's documented default (origin 0 with the
+  \* re-normalised index range), which is only right when that default IS the position of the first voxel
+  /\ IF h.hasFpo THEN \A a \in 1..3 : QNear(h.fpo[a], h.fpoR[a], fpo[a], IF K_DEC6 \in X THEN Dec6Tol(fpo[a]) ELSE 0)
+     ELSE fpo = Rev3([d \in 1..3 |-> ReadMin(g.size)[d] * g.vox[d]])
   \* the data file has exactly the length the header announces
   \* (known finding K_NEGUNS: shorter, if a refused data set belongs to this file)
   /\ \/ h.dlen = dsPerFile * nv * h.bpp
